@@ -110,6 +110,10 @@ func runSys(cfg *runCfg, g *gen, n int) (cases []string, dist map[string]int, fa
 			st.srv.Close()
 		}
 	}()
+	// one notification chain with a plugin that is alive but slow (5.5 s), in the background of the other
+	// cases: the plugin behind it must still get the notification once the slow one has answered
+	slowDone := make(chan sysResult, 1)
+	go func() { slowDone <- slowNotifyChain() }()
 	fail := func(key, what, c string) {
 		fails = append(fails, map[string]string{"key": key, "what": what, "case": c})
 	}
@@ -127,6 +131,7 @@ func runSys(cfg *runCfg, g *gen, n int) (cases []string, dist map[string]int, fa
 		np := g.intn(4)
 		// two NewUserConn cases per run have a plugin that answers after userConnTimeout
 		slowCase := op == "NewUserConn" && (k/len(gating))%12 == 1
+		useINI := g.chance(0.2)
 		if slowCase && np == 0 {
 			np = 1
 		}
@@ -240,24 +245,57 @@ func runSys(cfg *runCfg, g *gen, n int) (cases []string, dist map[string]int, fa
 				valid = append(valid, "NewUserConn")
 				opsets[i] = valid
 			}
-			scCoq = append(scCoq, fmt.Sprintf("(%d, %s)", ids[i], scripts[i].coq()))
 			stubs[i].mu.Lock()
 			stubs[i].sc, stubs[i].onlyOp, stubs[i].notes = scripts[i], op, nil
 			stubs[i].mu.Unlock()
 			name, omit := g.cfgName()
-			entries = append(entries, cfgEntry{name: name, omitName: omit, addr: "http://" + stubs[i].addr, ops: valid})
-			var os []string
-			for _, o := range valid {
-				os = append(os, coqStr(o))
+			if useINI {
+				name, omit = fmt.Sprintf("p%c", 'a'+i), false // section names are keys in the legacy format
 			}
-			esCoq = append(esCoq, fmt.Sprintf("(%s, %s)", coqStr(name), coqList(os)))
+			entries = append(entries, cfgEntry{name: name, omitName: omit, addr: "http://" + stubs[i].addr, ops: valid})
 		}
+		sysUserConnTimeout = 10
+		if slowCase {
+			sysUserConnTimeout = 1
+		}
+		sysINI = useINI
 		srv, e := startFromConfigFile(sysAddr, entries, true, g.chance(0.35))
+		sysUserConnTimeout, sysINI = 10, false
 		if e != nil {
 			return nil, nil, nil, e
 		}
-		if len(srv.Cfg.HTTPPlugins) != np {
+		// the configuration as loaded: with the legacy INI format the plugins come out of a Go map, so the
+		// order of registration is the loader's (an oracle); stub j stands behind the entry with its address
+		pos := make([]int, np) // stub index -> position (1-based) in the loaded configuration
+		order := make([]int, 0, np)
+		for k2, lp := range srv.Cfg.HTTPPlugins {
+			for j := 0; j < np; j++ {
+				if lp.Addr == entries[j].addr && pos[j] == 0 {
+					pos[j] = k2 + 1
+					order = append(order, j)
+					break
+				}
+			}
+		}
+		if len(order) != np {
+			// an entry did not survive the loader: keep the file's order, the comparison will show it
+			order = order[:0]
+			for j := 0; j < np; j++ {
+				pos[j] = j + 1
+				order = append(order, j)
+			}
 			dist["sys-config-entries-lost-before-start"]++
+		}
+		for _, j := range order {
+			var os []string
+			for _, o := range entries[j].ops {
+				os = append(os, coqStr(o))
+			}
+			esCoq = append(esCoq, fmt.Sprintf("(%s, %s)", coqStr(entries[j].name), coqList(os)))
+			scCoq = append(scCoq, fmt.Sprintf("(%d, %s)", pos[j], scripts[j].coq()))
+		}
+		if useINI {
+			dist["sys-legacy-ini-config"]++
 		}
 		rec.take()
 		observed := "fail"
@@ -410,7 +448,7 @@ func runSys(cfg *runCfg, g *gen, n int) (cases []string, dist map[string]int, fa
 				res := make(chan string, 2)
 				go func() {
 					for {
-						m, e := peer.recv(4 * time.Second)
+						m, e := peer.recv(8 * time.Second)
 						if e != nil {
 							res <- "noresp"
 							return
@@ -422,7 +460,7 @@ func runSys(cfg *runCfg, g *gen, n int) (cases []string, dist map[string]int, fa
 					}
 				}()
 				go func() {
-					if hx.ConnClosedWithin(uc, 4*time.Second) {
+					if hx.ConnClosedWithin(uc, 8*time.Second) {
 						res <- "fail"
 					}
 				}()
@@ -434,6 +472,11 @@ func runSys(cfg *runCfg, g *gen, n int) (cases []string, dist map[string]int, fa
 		}
 		// let in-flight plugin requests of this case finish (they are synchronous with the reply we waited for)
 		seen := rec.take()
+		for i := range seen {
+			if seen[i].id >= 1 && seen[i].id <= np {
+				seen[i].id = pos[seen[i].id-1]
+			}
+		}
 		for i := 0; i < np; i++ {
 			stubs[i].mu.Lock()
 			stubs[i].sc, stubs[i].onlyOp = nil, ""
@@ -633,5 +676,100 @@ func runSys(cfg *runCfg, g *gen, n int) (cases []string, dist map[string]int, fa
 		stubs[i].mu.Unlock()
 	}
 	dist["sys-quirk:refusal-with-empty-reason-shown-as-success-to-client"] = quirk
+
+	sr := <-slowDone
+	cases = append(cases, sr.Cases...)
+	for k, v := range sr.Dist {
+		dist[k] += v
+	}
+	fails = append(fails, sr.Fails...)
+
+	// ---- sessions through the ssh tunnel gateway
+	nGw := 12
+	if cfg.Tier != "quick" {
+		nGw = 60
+	}
+	gwCases, gwDist, gwFails, e := runGateway(g, nGw, stubs, rec)
+	if e != nil {
+		return nil, nil, nil, e
+	}
+	cases = append(cases, gwCases...)
+	for k, v := range gwDist {
+		dist[k] += v
+	}
+	fails = append(fails, gwFails...)
 	return cases, dist, fails, nil
+}
+
+// slowNotifyChain: frps with two CloseProxy plugins; the first answers every notification after 5.5 s
+// (200, accept), the second at once.  One proxy is registered and closed explicitly.
+func slowNotifyChain() (res sysResult) {
+	res.Dist = map[string]int{}
+	rec := &recorder{}
+	slow, e1 := newHTTPStubAt(1, 27, rec)
+	fast, e2 := newHTTPStubAt(2, 28, rec)
+	if e1 != nil || e2 != nil {
+		res.Fails = append(res.Fails, map[string]string{"key": "harness:slow-notify-setup", "what": fmt.Sprint(e1, e2), "case": ""})
+		return
+	}
+	defer slow.srv.Close()
+	defer fast.srv.Close()
+	slow.mu.Lock()
+	slow.onlyOp, slow.noteDelay = "none", 5500*time.Millisecond
+	slow.mu.Unlock()
+	fast.mu.Lock()
+	fast.onlyOp = "none"
+	fast.mu.Unlock()
+	srv, e := startFromConfigFileWith(sysAddr, []cfgEntry{
+		{name: "slow", addr: "http://" + slow.addr, ops: []string{"CloseProxy"}},
+		{name: "fast", addr: "http://" + fast.addr, ops: []string{"CloseProxy"}}}, false, false, 10, nil, false)
+	if e != nil {
+		res.Fails = append(res.Fails, map[string]string{"key": "harness:slow-notify-setup", "what": e.Error(), "case": ""})
+		return
+	}
+	defer srv.Close()
+	g := newGen(99)
+	peer, _, _, e := sysLogin(srv, baseLogin(g, 777777, true))
+	if e != nil || peer == nil {
+		res.Fails = append(res.Fails, map[string]string{"key": "harness:slow-notify-setup", "what": "login failed", "case": ""})
+		return
+	}
+	defer peer.conn.Close()
+	name := "slowchain"
+	_ = peer.send(&msg.NewProxy{ProxyName: name, ProxyType: "tcp", RemotePort: nextPort()})
+	ok := false
+	for {
+		m, e := peer.recv(5 * time.Second)
+		if e != nil {
+			break
+		}
+		if r, isR := m.(*msg.NewProxyResp); isR {
+			ok = r.Error == ""
+			break
+		}
+	}
+	_ = peer.send(&msg.CloseProxy{ProxyName: name})
+	dl := time.Now().Add(14 * time.Second)
+	var notes []string
+	for time.Now().Before(dl) {
+		fast.mu.Lock()
+		notes = append([]string(nil), fast.notes...)
+		fast.mu.Unlock()
+		if len(notes) >= 1 {
+			break
+		}
+		time.Sleep(10 * time.Millisecond)
+	}
+	var ns []string
+	for _, x := range notes {
+		ns = append(ns, coqHxS(x))
+	}
+	txt := fmt.Sprintf("CNotify [CRegister %s %s; CClose %s; CSessionEnd []] %s", coqHxS(name), coqBool(ok), coqHxS(name), coqList(ns))
+	res.Cases = append(res.Cases, txt)
+	res.Dist["notify-behind-slow-plugin"]++
+	if ok && len(notes) != 1 {
+		res.Fails = append(res.Fails, map[string]string{"key": "impl:close-notification-count",
+			"what": fmt.Sprintf("the CloseProxy plugin behind a slow (5.5 s) but healthy plugin received %d notifications for 1 stopped proxy", len(notes)), "case": txt})
+	}
+	return
 }
